@@ -1,4 +1,5 @@
 import ClipVerif.Proofs.C16
+import ClipVerif.Proofs.C16b
 /-
 C16 — SimplifyPath removes only near-collinear vertices.  Theorems about the hand model
 `Model.simplifyPath`, generic in the distance type (so they cover SimplifyPath64 and SimplifyPathD
@@ -38,5 +39,34 @@ theorem simplifyStep_flags_one (dist : Point64 → Point64 → Point64 → D) (p
     s'.flags.size = s.flags.size ∧
     (s'.flags.toList.filter (· = true)).length ≤ (s.flags.toList.filter (· = true)).length + 1 := by
   exact Proofs.C16.simplifyStep_flags_one dist path epsSq closed high s s' h
+
+/-- post-condition of `SimplifyPath64` (the state in which the outer loop stops): unless only two
+    vertices remain, no retained vertex (end points of an open path aside) is within ε of the line
+    through its two retained neighbours.  `dist` is any distance function, `D` any ordered type in
+    which `epsSq < a` is the negation of `a ≤ epsSq` (true of `float64` without NaN). -/
+theorem simplify_post (dist : Point64 → Point64 → Point64 → D) (maxD : D) (path : Array Point64) (epsSq : D)
+    (closed : Bool) (hl : 4 ≤ path.size) (htot : ∀ a : D, epsSq < a ↔ ¬ (a ≤ epsSq))
+    (hsym : ∀ p a b, dist p a b = dist p b a) :
+    let s := simplifyFinal dist maxD path epsSq closed
+    let high := path.size - 1
+    ∀ i, i ≤ high → s.flags[i]! = false → (closed = true ∨ (i ≠ 0 ∧ i ≠ high)) →
+      getNext i high s.flags ≠ getPrior i high s.flags →
+      ¬ (dist path[i]! path[getPrior i high s.flags]! path[getNext i high s.flags]! ≤ epsSq) := by
+  exact Proofs.C16b.simplify_post dist maxD path epsSq closed hl htot hsym
+
+/-- `hsym` cannot be dropped from `simplify_post`: for a closed path the code initialises `distSqr[high]`
+    as `dist path[high] path[0] path[high-1]` (line points in the order next, prior), so for a distance
+    that depends on the order of the two line points the cache says nothing about
+    `dist path[high] path[high-1] path[0]`.  Witness: the square `(0,0) (10,0) (10,10) (0,10)`, closed, ε² = 0,
+    `dist p a b = if p = (0,10) ∧ a = (10,10) then 0 else 1` — nothing is removed, yet vertex 3 is at distance 0. -/
+theorem simplify_post_needs_symmetry :
+    ∃ (dist : Point64 → Point64 → Point64 → Nat) (maxD : Nat) (path : Array Point64) (epsSq : Nat) (closed : Bool),
+      4 ≤ path.size ∧ (∀ a : Nat, epsSq < a ↔ ¬ (a ≤ epsSq)) ∧
+      ¬ (let s := simplifyFinal dist maxD path epsSq closed
+         let high := path.size - 1
+         ∀ i, i ≤ high → s.flags[i]! = false → (closed = true ∨ (i ≠ 0 ∧ i ≠ high)) →
+           getNext i high s.flags ≠ getPrior i high s.flags →
+           ¬ (dist path[i]! path[getPrior i high s.flags]! path[getNext i high s.flags]! ≤ epsSq)) := by
+  exact Proofs.C16b.needs_symmetry
 
 end C16
